@@ -122,11 +122,15 @@ def run(ctx):
             if meter > 64 * len(data) + 32:
                 ctx.report(case, 'model meter %d' % meter, '<= 64*%d+32' % len(data), cls='model-alloc', failing_input=False,
                            what='model allocation meter exceeds the proved bound')
-            if peak > meter + C.ALLOC_SLACK:
-                ctx.report(case, 'peak heap growth %d' % peak, 'model meter %d (+%d slack); 64 x %d bytes supplied' % (meter, C.ALLOC_SLACK, len(data)),
+            # the property: a constant multiple (64x, proved for the model) of the bytes supplied. The model's own meter follows
+            # today's way of concatenating fragments; exceeding it within the bound is counted, not reported
+            if meter + C.ALLOC_SLACK < peak <= 64 * len(data) + C.ALLOC_SLACK:
+                ctx.count('allocation above the model meter, within 64 x supplied')
+            if peak > 64 * len(data) + C.ALLOC_SLACK:
+                ctx.report(case, 'peak heap growth %d' % peak, '<= 64 x %d bytes supplied (+%d slack); model meter %d' % (len(data), C.ALLOC_SLACK, meter),
                            cls='wsmsg-alloc', failing_input=True,
                            what='receiving the %d bytes %s… allocated %d bytes; the bytes supplied justify at most %d' % (
-                               len(data), data[:16].hex(), peak, meter + C.ALLOC_SLACK))
+                               len(data), data[:16].hex(), peak, 64 * len(data) + C.ALLOC_SLACK))
         if ';' in res_b or last in ('E:opcode', 'E:closed') or (last == 'E:read' and len(data) >= 2):
             ctx.mark_nontrivial((data[:24], len(data), how))
     mid = len(cases) // 2
